@@ -62,6 +62,8 @@ def errClass : DErr → String
 
 /-- `Automerge::load` of a file that starts with a document chunk -/
 def loadLines (bytes : Bytes) : List String :=
+  -- `load_with_options`: no bytes are the empty document
+  if bytes.isEmpty then ["ok heads=-", "rows -", "changes -"] else
   match Chunk.parseHeader bytes with
   | .error _ => ["err parse"]
   | .ok (h, i) =>
